@@ -58,7 +58,7 @@ theorem one_verdict_observable (cfg : Cfg) (t0 : Nat) (acts : List Act) :
 /-- non-vacuity: quota 1 per second, three requests of one priority: 0 is allowed at once, 1 (the
 earlier of the two waiters) at the roll-over of the window, 2 still waits; each Done happened once. -/
 example :
-    let s := (runOps ⟨5, 2000, 1, 1000, []⟩ { s := St.init 1700000000000 }
+    let s := (runOps ⟨5, 2000, 1, 1000, [], false⟩ { s := St.init 1700000000000 }
       [.arrive 1, .tick, .tick, .arrive 1, .arrive 1, .tick, .tick, .tick, .tick, .tick, .tick, .tick, .tick]).s
     (s.reqs 0).pc = .removed ∧ (s.reqs 0).dones = 1 ∧ (s.reqs 1).res = .success ∧ (s.reqs 1).dones = 1 ∧
     (s.reqs 2).pc = .parked ∧ (s.reqs 2).dones = 0 := by
@@ -81,7 +81,7 @@ theorem allowed_implies_quota (cfg : Cfg) (t0 : Nat) (acts : List Act) :
 /-- non-vacuity: with quota 1 per second two requests are queued; after one tick one of them has
 been allowed (quota said yes) and the other refused (quota said no). -/
 example :
-    let s := (runOps ⟨5, 2000, 1, 1000, []⟩ { s := St.init 1700000000000 } [.arrive 0, .arrive 0, .tick]).s
+    let s := (runOps ⟨5, 2000, 1, 1000, [], false⟩ { s := St.init 1700000000000 } [.arrive 0, .arrive 0, .tick]).s
     (s.reqs 0).res = .success ∧ (s.reqs 0).qok = true ∧ (s.reqs 1).res = .pending ∧ (s.reqs 1).qok = false := by
   decide +kernel
 
@@ -109,7 +109,7 @@ theorem priority_strict (cfg : Cfg) (t0 : Nat) (acts : List Act) :
 /-- non-vacuity: priorities 5 then 1 arrive, the loop wakes up: the minimum is the request with
 priority 1 (id 1), not the older one. -/
 example :
-    let s := run ⟨5, 2000, 1, 1000, []⟩ (St.init 0)
+    let s := run ⟨5, 2000, 1, 1000, [], false⟩ (St.init 0)
       [.arrive 5, .register 0, .push 0, .arrive 1, .register 1, .push 1, .loopFire]
     s.loop = .running ∧ (minItem s.heap).map (·.id) = some 1 ∧ (s.reqs 0).pc = .parked ∧ (s.reqs 0).st = .enqueued := by
   decide +kernel
@@ -142,10 +142,10 @@ theorem fifo_strict (cfg : Cfg) (t0 : Nat) (acts : List Act) :
 refused seven times and it is pushed back each time; it keeps its stamp, stays ahead of request 2
 and is allowed first; the whole Spec predicate — FIFO included — holds of the history. -/
 example :
-    let x := runOps ⟨5, 2000, 1, 1000, []⟩ { s := St.init 1700000000000 }
+    let x := runOps ⟨5, 2000, 1, 1000, [], false⟩ { s := St.init 1700000000000 }
       [.arrive 1, .tick, .tick, .arrive 1, .arrive 1, .tick, .tick, .tick, .tick, .tick, .tick, .tick, .tick]
     (x.s.reqs 1).pushTs = 1 ∧ (x.s.reqs 2).pushTs = 2 ∧ (x.s.reqs 1).res = .success ∧ (x.s.reqs 2).res = .pending ∧
-    x.s.heap.map (·.ts) = [2] ∧ holds ⟨5, 2000, 1, 1000, []⟩ x.s.trace.reverse = true := by
+    x.s.heap.map (·.ts) = [2] ∧ holds ⟨5, 2000, 1, 1000, [], false⟩ x.s.trace.reverse = true := by
   decide +kernel
 
 /-- FIFO by ARRIVAL, under every schedule: the arrival order is the order of the `queued` events
@@ -205,14 +205,14 @@ theorem size_bound (cfg : Cfg) (t0 : Nat) (acts : List Act) :
 /-- non-vacuity (the former F06b witness): `queue_size = 1`, two arrivals before either registers:
 the second finds the slot taken; one request waits. -/
 example :
-    let s := run ⟨1, 2000, 2, 1000, []⟩ (St.init 0) [.arrive 0, .arrive 0, .register 0, .push 0, .register 1, .push 1]
+    let s := run ⟨1, 2000, 2, 1000, [], false⟩ (St.init 0) [.arrive 0, .arrive 0, .register 0, .push 0, .register 1, .push 1]
     nWaiting s = 1 ∧ (s.reqs 0).pc = .parked ∧ (s.reqs 1).pc = .rejected := by
   decide +kernel
 
 /-- ... and through the macro-operations of `corpus/C06/regress-F06b.ops`: the whole Spec predicate
 holds of the history. -/
 example :
-    holds ⟨1, 2000, 2, 1000, []⟩ (runOps ⟨1, 2000, 2, 1000, []⟩ { s := St.init 1700000000000 }
+    holds ⟨1, 2000, 2, 1000, [], false⟩ (runOps ⟨1, 2000, 2, 1000, [], false⟩ { s := St.init 1700000000000 }
       [.arriveBegin 0, .arriveBegin 0, .arriveEnd 0, .tick]).s.trace.reverse = true := by
   decide +kernel
 
@@ -231,9 +231,9 @@ theorem timeout_only_after_ttl (cfg : Cfg) (t0 : Nat) (acts : List Act) (hn : no
 /-- non-vacuity: TTL 1 s, a quota that admits nothing: after 10 ticks (now = arrival + TTL) the
 request still waits, after the 11th it is rejected by time-out. -/
 example :
-    let x10 := runOps ⟨2, 1000, 0, 1000, []⟩ { s := St.init 1700000000000 }
+    let x10 := runOps ⟨2, 1000, 0, 1000, [], false⟩ { s := St.init 1700000000000 }
       [.arrive 0, .tick, .tick, .tick, .tick, .tick, .tick, .tick, .tick, .tick, .tick, .idle]
-    let x11 := applyOp ⟨2, 1000, 0, 1000, []⟩ x10 .tick
+    let x11 := applyOp ⟨2, 1000, 0, 1000, [], false⟩ x10 .tick
     (x10.s.reqs 0).res = .pending ∧ (x10.s.reqs 0).pc = .parked ∧ (x11.s.reqs 0).res = .timeout ∧
     (x11.s.reqs 0).pc = .removed := by
   decide +kernel
@@ -265,7 +265,7 @@ theorem expired_waiter_rejected_by_next_scan (cfg : Cfg) (t0 : Nat) (acts : List
 stands before the re-push while the clock passes 1's TTL; the watcher's scan finds it `processing`
 and leaves it; after the release it is `enqueued` again and the next scan rejects it. -/
 example :
-    let cfg : Cfg := ⟨3, 1000, 1, 3000, []⟩
+    let cfg : Cfg := ⟨3, 1000, 1, 3000, [], false⟩
     let x := runOps cfg { s := St.init 1700000000000 }
       [.arrive 0, .tick, .arrive 1, .tick, .tickHold, .advance 1300, .idle]
     let y := applyOp cfg x .tickRelease
@@ -297,7 +297,7 @@ theorem eventually_verdict (cfg : Cfg) (t0 : Nat) (pre mid : List Act) (i : Nat)
 continuation with an arrival and a clock advance in between the watcher's steps: both get their
 verdict (result `timeout`). -/
 example :
-    let cfg : Cfg := ⟨5, 1000, 0, 1000, []⟩
+    let cfg : Cfg := ⟨5, 1000, 0, 1000, [], false⟩
     let pre : List Act := [.arrive 1, .register 0, .push 0, .arrive 2, .register 1, .push 1, .advance 1100]
     let mid : List Act := [.wStep 0, .arrive 3, .wStep 0, .advance 5, .wStep 0, .wStep 0, .wStep 0]
     let s := run cfg (St.init 0) pre
@@ -312,7 +312,7 @@ example :
 (`pre` ends with the loop parked again, the watcher idle, request 1 `enqueued`, expired, no verdict):
 `eventually_verdict` applies — the next scan re-examines the already expired entry and rejects it. -/
 example :
-    let cfg : Cfg := ⟨3, 1000, 1, 3000, []⟩
+    let cfg : Cfg := ⟨3, 1000, 1, 3000, [], false⟩
     let pre : List Act := schedule cfg { s := St.init 1700000000000 }
       [.arrive 0, .tick, .arrive 1, .tick, .tickHold, .advance 1300, .idle] ++ [.loopStep 0, .loopStep 0]
     let mid : List Act := [.wStep 0, .wStep 0, .wStep 0, .wStep 0, .wStep 0]
@@ -369,17 +369,17 @@ allowed but their removal has not run when the context is cancelled; `StopAll` f
 watch list, `StartProcessing` fails for both, nobody is signalled twice; the whole Spec predicate
 holds of the history. -/
 example :
-    let s := (runOps ⟨2, 2000, 2, 1000, []⟩ { s := St.init 1700000000000 }
+    let s := (runOps ⟨2, 2000, 2, 1000, [], false⟩ { s := St.init 1700000000000 }
       [.holdRemove, .arrive 0, .arrive 0, .tick, .arrive 0, .drain]).s
     s.panicked = false ∧ s.loop = .exited ∧ s.drainSet = [0, 1] ∧ (s.reqs 0).dones = 1 ∧ (s.reqs 1).dones = 1 ∧
-    (s.reqs 0).res = .success ∧ holds ⟨2, 2000, 2, 1000, []⟩ s.trace.reverse = true := by
+    (s.reqs 0).res = .success ∧ holds ⟨2, 2000, 2, 1000, [], false⟩ s.trace.reverse = true := by
   decide +kernel
 
 /-- non-vacuity: two waiters, a quota that admits nothing, shutdown: both are released as `blocked`. -/
 example :
-    let s := (runOps ⟨3, 2000, 0, 1000, []⟩ { s := St.init 1700000000000 } [.arrive 0, .arrive 1, .tick, .drain]).s
+    let s := (runOps ⟨3, 2000, 0, 1000, [], false⟩ { s := St.init 1700000000000 } [.arrive 0, .arrive 1, .tick, .drain]).s
     s.panicked = false ∧ s.loop = .exited ∧ s.drainSet = [0, 1] ∧ (s.reqs 0).res = .timeout ∧ (s.reqs 1).res = .timeout ∧
-    (s.reqs 0).pc = .removed ∧ holds ⟨3, 2000, 0, 1000, []⟩ s.trace.reverse = true := by
+    (s.reqs 0).pc = .removed ∧ holds ⟨3, 2000, 0, 1000, [], false⟩ s.trace.reverse = true := by
   decide +kernel
 
 /-! ### Connection with the driver / judge -/
@@ -417,7 +417,7 @@ theorem driver_runs_holds (cfg : Cfg) (t0 : Nat) (ops : List Op) :
 conjuncts speak about (allowed and rejected verdicts, refused attempts, a request overtaken by a
 more urgent later arrival) and the full predicate `holds` — safety and timeliness — is true of them. -/
 example :
-    let cfg : Cfg := ⟨3, 1000, 1, 1000, []⟩
+    let cfg : Cfg := ⟨3, 1000, 1, 1000, [], false⟩
     let h := (runOps cfg { s := St.init 1700000000000 }
       [.arrive 5, .arrive 5, .tick, .arrive 1, .tick, .tick, .tick, .tick, .tick, .tick, .tick, .tick, .tick, .tick,
        .tick]).s.trace.reverse
